@@ -53,7 +53,8 @@ ASSUMPTIONS = ['supported size family = pv/families.py',
 REQUIRED_COUNTERS = ['decoders_constructed', 'decode_calls',
                      'syndrome_equalities_checked', 'zero_syndrome_decodes',
                      'noncss_cells', 'rectangular_cells',
-                     'isolated_children_ok']
+                     'isolated_children_ok',
+                     'same_process_deformation_variants']
 SHARD_TIMEOUT = {'quick': 900, 'thorough': 3600}
 
 COMPLETE = {'MatchingDecoder', 'UnionFindDecoder',
@@ -84,7 +85,7 @@ SIZES_Q = {
     'RhombicPlanarCode': [(2, 2, 2), (3, 2, 3)],
     'HollowPlanar3DCode': [(2, 2, 2), (3, 3, 4)],
     'HollowRhombicCode': [(2, 2, 3), (4, 4, 4)],
-    'XCubeCode': [(2, 2, 2), (2, 3, 4), (3, 3, 3)],
+    'XCubeCode': [(2, 2, 2), (2, 3, 4), (3, 3, 3), (3, 2, 2), (2, 3, 2)],
     'Color3DCode': [(2, 2, 2)],
 }
 SIZES_T_EXTRA = {
@@ -102,9 +103,18 @@ SIZES_T_EXTRA = {
     'RhombicPlanarCode': [(3, 3, 3), (2, 4, 3)],
     'HollowPlanar3DCode': [(3, 3, 3), (4, 3, 5)],
     'HollowRhombicCode': [(3, 3, 4), (5, 4, 5)],
-    'XCubeCode': [(3, 2, 2), (4, 4, 4), (2, 2, 5)],
+    'XCubeCode': [(2, 2, 3), (4, 4, 4), (2, 2, 5), (4, 2, 3)],
     'Color3DCode': [(2, 2, 4)],
 }
+
+
+# every axis gets to be the odd one out (XCubeMatchingDecoder only failed
+# when L_x != L_y or L_y != L_z in particular arrangements)
+for _cls in ('Toric3DCode', 'Planar3DCode', 'RotatedPlanar3DCode',
+             'RotatedToric3DCode', 'XCubeCode'):
+    for _s in ((3, 2, 2), (2, 3, 2), (2, 2, 3)):
+        if fam.SUPPORTED[_cls](*_s) and _s not in SIZES_Q[_cls]:
+            SIZES_Q[_cls].append(_s)
 
 
 def decoder_classes():
@@ -187,6 +197,21 @@ def plan(tier, seed):
                                     'rate': rate, 'nrand': nr, 'seed': seed,
                                     'tier': tier,
                                     'cost': per * (nr + 20) + 50})
+    # every code-deformation variant of one (class, size) decoded by fresh
+    # BP-OSD / MBP objects inside ONE process, in both orders (anything
+    # shared between decoder instances shows here)
+    seqs = [('Toric2DCode', (3, 4)), ('Planar2DCode', (3, 3)),
+            ('RotatedPlanar2DCode', (3, 4)), ('Toric3DCode', (2, 3, 2)),
+            ('XCubeCode', (2, 2, 2)), ('RhombicToricCode', (2, 2, 2)),
+            ('Color488Code', (1, 2)), ('RotatedToric3DCode', (2, 3, 2))]
+    if tier == 'thorough':
+        seqs += [('Toric3DCode', (3, 3, 3)), ('Planar3DCode', (2, 3, 2)),
+                 ('RotatedPlanar3DCode', (3, 2, 2)),
+                 ('Color666ToricCode', (2, 2)),
+                 ('HollowRhombicCode', (2, 2, 3))]
+    for cls, size in seqs:
+        tasks.append({'kind': 'defseq', 'cls': cls, 'size': list(size),
+                      'seed': seed, 'tier': tier, 'cost': 4000})
     # BP-OSD with exactly the parameters `panqec generate-input` writes
     gi = [('Toric2DCode', (3, 3)), ('Toric2DCode', (5, 5)),
           ('Planar2DCode', (2, 2)), ('RotatedPlanar2DCode', (3, 3)),
@@ -541,7 +566,26 @@ def run_valgrind(task, out):
         out.count('valgrind_report_blocks', len(blocks))
 
 
+def run_defseq(task, out):
+    defs = fam.deformations(task['cls'])
+    order = list(range(len(defs)))
+    for seq in (order, order[::-1]):
+        for di in seq:
+            cdn, cdk = defs[di]
+            cell = {'decoder': 'BeliefPropagationOSDDecoder',
+                    'cls': task['cls'], 'size': task['size'],
+                    'code_def': [cdn, cdk], 'noise': 'depol',
+                    'noise_def': [None, {}], 'rate': 0.1, 'nrand': 12,
+                    'seed': task['seed'], 'tier': 'quick',
+                    'decoder_kwargs': {'max_bp_iter': 50}}
+            run_cell(cell, out)
+            out.count('same_process_deformation_variants')
+
+
 def run_task(task, out):
+    if task.get('kind') == 'defseq':
+        run_defseq(task, out)
+        return
     if task.get('kind') == 'valgrind':
         run_valgrind(task, out)
         return
